@@ -150,6 +150,7 @@ pub fn std_resources() -> Vec<Resource> {
         resource("a", &["a-alias"], ResourceType::Mime(MimeType::ImageGif), "GIF89a", &[], 0),
         resource("b", &[], ResourceType::Mime(MimeType::ApplicationJavascript), "(function(){})()", &[], 0),
         resource("perm", &[], ResourceType::Mime(MimeType::ApplicationJavascript), "perm()", &[], 1),
+        resource("ns:a", &[], ResourceType::Mime(MimeType::TextPlain), "ns-a", &[], 0),
         resource("fn", &[], ResourceType::Mime(MimeType::FnJavascript), "function fn(){}", &[], 0),
         resource("tpl", &[], ResourceType::Template, "tpl({{1}})", &[], 0),
     ]
